@@ -90,7 +90,9 @@ class Interstitial(object):
             self.bias_solver = lambda omega, b: -solve(-omega, b, assume_a='pos')
         else:
             # pseudoinverse required:
-            self.bias_solver = lambda omega, b: np.dot(pinv(omega), b)
+            # cutoff well above the round-off of the projected omega (eps * largest rate), which can exceed
+            # the default cutoff (eps * largest singular value of the projection) when the bias-carrying jumps are slow
+            self.bias_solver = lambda omega, b: np.dot(np.linalg.pinv(omega, rcond=1e-10), b)
         # these pieces are needed in order to compute the elastodiffusion tensor
         self.sitegroupops = self.generateSiteGroupOps()  # list of group ops to take first rep. into whole list
         self.jumpgroupops = self.generateJumpGroupOps()  # list of group ops to take first rep. into whole list
